@@ -395,12 +395,46 @@ class SymInt:
         self.z, self.lo, self.hi = z, lo, hi
 
     def __hash__(self):
-        # enum.EnumType.__call__ relies on TypeError for unhashable values to fall back to a linear member search,
-        # which forks symbolically per member.  Everywhere else hashing concretises by exhaustive forking.
         f = sys._getframe(1)
         if f.f_code.co_filename.endswith("enum.py"):
-            raise TypeError("unhashable type: 'SymInt'")
+            return self._enum_hash(f)
         return hash(concretize(self, limit=48))
+
+    def _enum_hash(self, f):
+        """Called by Enum.__new__'s `cls._value2member_map_[value]`: partition the value space into one cell per member
+        value plus 'no member' and fork over the feasible cells (recorded like concretize decisions)."""
+        cls = f.f_locals.get("cls")
+        try:
+            vals = [v for v in cls._value2member_map_ if isinstance(v, int)]
+        except Exception:  # noqa: BLE001
+            raise TypeError("unhashable type: 'SymInt'") from None
+        c = ctx()
+        none_cond = z3.And(*[self.z != v for v in vals]) if vals else z3.BoolVal(True)
+        while True:
+            i = len(c.decisions)
+            if i < len(c.replay):
+                tag, v, d = c.replay[i]
+                assert tag == "e", "decision replay out of sync"
+                c.model = None
+            else:
+                m = c.current_model()
+                v = m.eval(self.z, model_completion=True).as_signed_long()
+                if v not in vals:
+                    v = None
+                cell = (self.z == v) if v is not None else none_cond
+                r = c._check(z3.Not(cell))
+                if r == z3.unknown:
+                    raise Unsupported("solver unknown in enum lookup")
+                if r == z3.sat:
+                    c.todo.append(c.decisions + [("e", v, False)])
+                d = True
+            cell = (self.z == v) if v is not None else none_cond
+            c.decisions.append(("e", v, d))
+            c.solver.add(cell if d else z3.Not(cell))
+            if d:
+                if v is None:
+                    return hash(("symx-no-enum-member",))     # KeyError in the map -> _missing_ -> ValueError
+                return hash(v)
 
     def _cmp(self, o, f, quick):
         zo = zint(o)
@@ -920,7 +954,7 @@ def _alarm(signum, frame):
     raise PathTimeout("per-path time budget exhausted")
 
 
-def explore(fn, max_paths=200000, timeout=3600, path_timeout=30, on_path=None):
+def explore(fn, max_paths=200000, timeout=3600, path_timeout=30, on_path=None, max_timeouts=2, stop=None):
     """Run fn(ctx) on every feasible path.  Returns (results, stats).
 
     results: PathResult(kind in ok|raise|unsupported|timeout) -- unless on_path is given, in which case each
@@ -934,7 +968,10 @@ def explore(fn, max_paths=200000, timeout=3600, path_timeout=30, on_path=None):
     old = signal.signal(signal.SIGALRM, _alarm)
     try:
         while todo:
-            if stats["paths"] >= max_paths or time.time() - t0 > timeout:
+            if stop is not None and stop():
+                stats["stopped_early"] = True
+                break
+            if stats["paths"] >= max_paths or time.time() - t0 > timeout or stats["timeouts"] >= max_timeouts:
                 stats["incomplete"] = True
                 stats["pending_prefixes"] = len(todo)
                 break
